@@ -104,6 +104,16 @@ func main() {
 			die("%v", err)
 		}
 	}
+	// export_test.go-style access for component-level scenarios: the harness
+	// builds yamux sessions with a configuration of its own and puts real
+	// MuxBrokers on them (written into the rewritten copy only)
+	os.WriteFile(filepath.Join(out, "zz_sim_export.go"), []byte(`package plugin
+
+import "github.com/hashicorp/yamux"
+
+// NewMuxBrokerForSim is newMuxBroker, for the simulator's harness.
+func NewMuxBrokerForSim(s *yamux.Session) *MuxBroker { return newMuxBroker(s) }
+`), 0o644)
 	b, _ := json.MarshalIndent(sites, "", " ")
 	os.WriteFile(filepath.Join(out, "sites.json"), b, 0o644)
 	fmt.Printf("simgen: %d files, %d schedule points\n", len(files), len(sites))
